@@ -17,6 +17,16 @@ func (alg Alg) Process(g *graph.DGraph, params graph.Params) {
 
 	switch alg {
 	case NoOrdering:
+		// nodes keep the order the layering left them in, but the positioning and routing phases still rely
+		// on a proper layering (every edge spans exactly one layer) and on every node knowing its position
+		if len(g.Layers) > 1 {
+			breakLongEdges(g)
+		}
+		for _, l := range g.Layers {
+			for i, n := range l.Nodes {
+				n.LayerPos = i
+			}
+		}
 		return
 	case WMedian:
 		execWeightedMedian(g, params)
